@@ -1,4 +1,5 @@
 import Tau.Mapping
+import Tau.Rule
 /-
   C15 — the ignore_case build equals the default build with every pattern i-prefixed.
 -/
@@ -145,5 +146,128 @@ end
 theorem parse_identifier_ic (E : RegexEngine) (kvs : List (Yaml × Yaml)) :
     parseMapping E true kvs = parseMapping E false (iPrefix.iPrefixM kvs) := by
   simp [parseMapping, entries_ic]
+
+end Tau.C15
+
+/-! ### Every YAML shape, and the rule as a whole -/
+
+namespace Tau.C15
+open Tau
+
+theorem go_ic (E : RegexEngine) : ∀ (ys : List Yaml),
+    parseIdentifier.go E true ys = parseIdentifier.go E false (iPrefix.iPrefixL ys)
+  | [] => by simp [parseIdentifier.go, iPrefix.iPrefixL]
+  | y :: rest => by
+    cases y with
+    | map m =>
+      simp only [parseIdentifier.go, iPrefix.iPrefixL, iPrefix]
+      rw [entries_ic E m, go_ic E rest]
+    | _ => simp [parseIdentifier.go, iPrefix.iPrefixL, iPrefix]
+
+/-- **Identifier level, every YAML shape**: a mapping, a sequence of mappings, anything else. -/
+theorem parseIdentifier_ic (E : RegexEngine) (y : Yaml) :
+    parseIdentifier E true y = parseIdentifier E false (iPrefix y) := by
+  cases y with
+  | map m => simp only [parseIdentifier, iPrefix]; exact parse_identifier_ic E m
+  | seq ys =>
+    cases ys with
+    | nil => simp [parseIdentifier, iPrefix, iPrefix.iPrefixL]
+    | cons a r =>
+      simp only [parseIdentifier, iPrefix, iPrefix.iPrefixL]
+      have := go_ic E (a :: r)
+      simp only [iPrefix.iPrefixL] at this
+      rw [this]
+  | _ => simp [parseIdentifier, iPrefix]
+
+/-- The detection block with `i` prepended to every string pattern of every identifier (the
+    condition is left alone). -/
+def iPrefixDet : List (Str × Yaml) → List (Str × Yaml)
+  | [] => []
+  | (k, v) :: rest => (if k == condKey then (k, v) else (k, iPrefix v)) :: iPrefixDet rest
+
+def stMap (st : LoadSt) : LoadSt :=
+  { st with idsRaw := st.idsRaw.map (fun p => (p.1, iPrefix p.2)) }
+
+theorem loadEntries_ic (E : RegexEngine) : ∀ (es : List (Str × Yaml)) (st : LoadSt),
+    (loadEntries E true es st).map stMap = loadEntries E false (iPrefixDet es) (stMap st)
+  | [], st => by simp [loadEntries, iPrefixDet, Except.map]
+  | (key, v) :: rest, st => by
+    by_cases hk : (key == condKey) = true
+    · simp only [loadEntries, iPrefixDet, hk, if_true]
+      by_cases hc : st.cond.isSome = true
+      · simp [hc, stMap, Except.map]
+      · have hc' : (stMap st).cond.isSome = false := by simpa [stMap] using hc
+        simp only [hc, hc', Bool.false_eq_true, if_false]
+        cases scalarYamlText v with
+        | none => simp [Except.map]
+        | some s => exact loadEntries_ic E rest _
+    · simp only [loadEntries, iPrefixDet, hk, Bool.false_eq_true, if_false]
+      have hids : (stMap st).ids = st.ids := rfl
+      rw [hids]
+      by_cases hl : (lookupId st.ids key).isSome = true
+      · simp [hl, Except.map]
+      · simp only [hl, Bool.false_eq_true, if_false]
+        rw [← parseIdentifier_ic E v]
+        cases parseIdentifier E true v with
+        | error e => simp [Except.map]
+        | ok e =>
+          simp only []
+          have := loadEntries_ic E rest { st with ids := st.ids ++ [(key, e)], idsRaw := st.idsRaw ++ [(key, v)] }
+          simpa [stMap, List.map_append] using this
+
+/-- **Rule level.** The `ignore_case` build loads a detection block exactly when the default build
+    loads the block with `i` prepended to every string pattern, and then with the same condition
+    tree and the same identifier trees. -/
+theorem loadDetection_ic (E : RegexEngine) (entries : List (Str × Yaml)) :
+    (loadDetection E true entries).map (fun d => (d.expr, d.ids, d.condRaw)) =
+    (loadDetection E false (iPrefixDet entries)).map (fun d => (d.expr, d.ids, d.condRaw)) := by
+  unfold loadDetection
+  have h := loadEntries_ic E entries {}
+  have h0 : stMap {} = ({} : LoadSt) := rfl
+  rw [h0] at h
+  rw [← h]
+  cases loadEntries E true entries {} with
+  | error e => simp [Except.map]
+  | ok st =>
+    simp only [Except.map]
+    have hc : (stMap st).cond = st.cond := rfl
+    have hi : (stMap st).ids = st.ids := rfl
+    rw [hc, hi]
+    cases st.cond with
+    | none => rfl
+    | some raw =>
+      simp only []
+      cases tokenise raw with
+      | error e => rfl
+      | ok tokens =>
+        simp only []
+        by_cases hp : (!identsPresent st.ids tokens) = true
+        · simp only [hp, if_true]
+        · simp only [hp, Bool.false_eq_true, if_false]
+          cases parse tokens with
+          | error e => rfl
+          | ok e =>
+            simp only []
+            by_cases hs : (!e.isSolvable) = true
+            · simp only [hs, if_true]
+            · simp only [hs, Bool.false_eq_true, if_false]
+
+/-- **The verdicts.** A rule in the `ignore_case` build gives, on every document, the three-valued
+    result (hence the verdict) the default build gives for the same rule with `i` prepended to every
+    string pattern. -/
+theorem rule_ic_verdict (E : RegexEngine) (entries : List (Str × Yaml)) (d1 d2 : Detection)
+    (h1 : loadDetection E true entries = .ok d1) (h2 : loadDetection E false (iPrefixDet entries) = .ok d2)
+    (doc : Doc) : solveTop E d1.ids doc d1.expr = solveTop E d2.ids doc d2.expr := by
+  have h := loadDetection_ic E entries
+  rw [h1, h2] at h
+  simp only [Except.map, Except.ok.injEq, Prod.mk.injEq] at h
+  rw [h.1, h.2.1]
+
+/-- Either build rejects what the other rejects. -/
+theorem rule_ic_loads (E : RegexEngine) (entries : List (Str × Yaml)) :
+    (loadDetection E true entries).isOk = (loadDetection E false (iPrefixDet entries)).isOk := by
+  have h := loadDetection_ic E entries
+  cases h1 : loadDetection E true entries <;> cases h2 : loadDetection E false (iPrefixDet entries) <;>
+    simp [h1, h2, Except.map, Except.isOk, Except.toBool] at h ⊢
 
 end Tau.C15
